@@ -145,7 +145,8 @@ pub fn run(ctx: &mut Ctx) {
                     let mut pj = Proj::full();
                     if multi_sell_day(&whole) { pj.legs_exact = false; }
                     pj.err_detail = false;
-                    if let Some(what) = rep::diff_report(&out, &mo, &pj) {
+                    if d3_disagreement(&whole, &out, &mo) { ctx.ev.count("correspondence-skipped:inexact-ratio-residue (D3)"); }
+                    else if let Some(what) = rep::diff_report(&out, &mo, &pj) {
                         ctx.ev.violation("correspondence", what.clone(), replay_text(prop, "correspondence (implementation vs Lean model)", &what, &whole, &[format!("case {name}")]));
                     }
                 }
